@@ -11,7 +11,7 @@ use std::sync::{
 };
 
 pub use crate::engine::computation_graph::{
-    CompressedBackwardEdgeSet, OwnedLock, QueryLock,
+    CompressedBackwardEdgeSet, OwnedLock, QueryLock, VerifNodeDump,
     VerifQueryLockManager as QueryLockManager,
 };
 
